@@ -259,6 +259,14 @@ def _valid_op(op):
                 return False
             if sp.get('ansi') is not None and (not isinstance(sp['ansi'], list) or not sp['ansi']):
                 return False
+            if sp.get('ansi') is not None:
+                from . import atoms as _atoms
+                if any(i not in _atoms.CATALOGUE for i in sp['ansi']):
+                    return False
+            if sp.get('align') is not None and sp['align'] not in ('<', '>', '^'):
+                return False
+            if sp.get('flag') is not None and sp['flag'] not in ('+', '-'):
+                return False
         if k == 'query' and op['q'] == 'settings_at' and not all(isinstance(i, int) for i in op.get('idx', [])):
             return False
         if k == 'join' and not isinstance(op.get('xs'), list):
@@ -274,6 +282,8 @@ def _valid_op(op):
         if st is not None:
             from . import atoms
             ids = atoms.flatten(st)
+            if any(i not in atoms.CATALOGUE for i in ids):
+                return False
             if not ids and k in ('new', 'conv', 'fmatch'):
                 return False
             if atoms.mergeable_adjacent(st):
